@@ -193,9 +193,13 @@ def run(ctx):
     # ---------------------------------------------------------------- C13.6
     ctx.rule('C13.6', 'the patch parser is a resolver for every path it hands out: each path field (path, moved_to) of every PatchOp the parser builds derives from a parse_rel_path result — Patch::parse is treated as a sanitiser by C13.2, so a field that bypasses parse_rel_path (a `Move to:` target taken as written) is an unchecked path with a clean label.')
     n6 = 0
-    for p_, g in sorted(P.fns.items()):
+    from ..inline import inline_calls as _inl6
+    for p_, g0 in sorted(P.fns.items()):
         if not p_.startswith('rip_workspace::patch'):
             continue
+        # per-directive helpers of the parser (`parse_move_directive(..)?`) are spliced in, so a path that reaches the
+        # PatchOp through a helper's return value is followed back to the parse_rel_path call inside the helper
+        g = _inl6(P, g0, lambda body, callee: callee.startswith('rip_workspace::patch::') and not callee.endswith('::parse_rel_path'), depth=2) if '{closure' not in p_ else g0
         for (bi, si, st) in g.aggregates(r'rip_workspace::patch::PatchOp$'):
             rv = st['rv']
             for fld, op in zip(rv['fields'], rv['a']):
